@@ -119,6 +119,35 @@ impl<T> Drop for Leaf<T> {
     }
 }
 
+/// The leaf's cells in storage order, read through the *checked* accessor with indexes computed
+/// here (not with the iterators under test).
+fn tensor_cells<E, R, const D: usize>(t: &Tensor<E, D>, f: impl Fn(&E) -> R) -> Vec<R> {
+    let shape = t.shape();
+    let total: usize = shape.iter().map(|d| d.1).product();
+    (0..total)
+        .map(|o| {
+            let mut rest = o;
+            let mut idx = [0usize; D];
+            for d in (0..D).rev() {
+                idx[d] = rest % shape[d].1;
+                rest /= shape[d].1;
+            }
+            f(TensorRef::get_reference(t, idx).expect("leaf cell"))
+        })
+        .collect()
+}
+
+fn matrix_cells<E, R>(m: &Matrix<E>, f: impl Fn(&E) -> R) -> Vec<R> {
+    let (rows, cols) = m.size();
+    let mut out = vec![];
+    for r in 0..rows {
+        for c in 0..cols {
+            out.push(f(m.get_reference(r, c)));
+        }
+    }
+    out
+}
+
 // ---------------------------------------------------------------------------------------------
 // recording
 // ---------------------------------------------------------------------------------------------
@@ -656,7 +685,7 @@ fn tensor_u64<const D: usize>(shape: &[(&'static str, usize)], ads: &[TAd], op: 
     };
     match written {
         Some(cells) => {
-            let now: Vec<u64> = leaf.get().iter().collect();
+            let now: Vec<u64> = tensor_cells(leaf.get(), |v| *v);
             format!("{}{}", recs, distinct_report(&cells, &now))
         }
         None => recs,
@@ -716,7 +745,7 @@ fn tensor_owned<const D: usize>(shape: &[(&'static str, usize)], ads: &[TAd], op
         }
     };
     if op.op == "left" {
-        let s = show_left(leaf.get().iter_reference().map(|d| d.show()));
+        let s = show_left(tensor_cells(leaf.get(), |d| d.show()).into_iter());
         drop(moved);
         return s;
     }
@@ -840,7 +869,7 @@ fn matrix_u64(rows: usize, cols: usize, ads: &[MAd], op: &Op) -> String {
     };
     match written {
         Some(cells) if !recs.starts_with("panic(") => {
-            let now: Vec<u64> = leaf.get().row_major_iter().collect();
+            let now: Vec<u64> = matrix_cells(leaf.get(), |v| *v);
             format!("{}{}", recs, distinct_report(&cells, &now))
         }
         _ => recs,
@@ -880,7 +909,7 @@ fn matrix_owned(rows: usize, cols: usize, ads: &[MAd], op: &Op) -> String {
         }
     };
     if op.op == "left" {
-        let s = show_left(leaf.get().row_major_reference_iter().map(|d| d.show()));
+        let s = show_left(matrix_cells(leaf.get(), |d| d.show()).into_iter());
         drop(moved);
         return s;
     }
